@@ -32,6 +32,7 @@ func newFaultPlan() *faultPlan {
 }
 
 type sbuild struct {
+	argChecks []func() string // the caller's own slices must be as they were (run after the execution)
 	r       *R
 	plan    *faultPlan
 	srcs    []*Src          // every instrumented source handed to the library, in creation order
@@ -198,6 +199,8 @@ func (b *sbuild) build(n *pnode, owner string) stream.Stream[int] {
 		for i := range n.kids {
 			kids[i] = kid(i, "Join")
 		}
+		orig := append([]stream.Stream[int](nil), kids...)
+		b.argChecks = append(b.argChecks, func() string { return sameElems("stream.Join", len(kids), func(i int) bool { return kids[i] == orig[i] }) })
 		return stream.Join(kids...)
 	case "mapstream":
 		return parallel.MapStream(b.bg.C, kid(0, "MapStream"), n.n, n.m, func(ctx context.Context, x int) (int, error) {
@@ -435,6 +438,7 @@ func (c *countIter) Next() (int, bool) {
 }
 
 type ibuild struct {
+	argChecks []func() string // the caller's own slices must be as they were (run after the iteration)
 	r    *R
 	byID map[int]*countIter
 	peekViolation string
@@ -493,6 +497,8 @@ func (b *ibuild) build(n *pnode) iterator.Iterator[int] {
 		for i := range n.kids {
 			kids[i] = kid(i)
 		}
+		orig := append([]iterator.Iterator[int](nil), kids...)
+		b.argChecks = append(b.argChecks, func() string { return sameElems("iterator.Join", len(kids), func(i int) bool { return kids[i] == orig[i] }) })
 		return iterator.Join(kids...)
 	}
 	panic("ibuild: unknown op " + n.op)
@@ -651,4 +657,21 @@ func (g *iGuard[T]) Next() (v T, ok bool) {
 		}
 	}()
 	return g.inner.Next()
+}
+
+
+// sameElems: a variadic function was handed the caller's slice; its elements must still be what the
+// caller put there (the slice stays the caller's).
+func sameElems(what string, n int, same func(i int) bool) (msg string) {
+	defer func() {
+		if p := recover(); p != nil {
+			msg = "" // elements of a type that cannot be compared: no verdict
+		}
+	}()
+	for i := 0; i < n; i++ {
+		if !same(i) {
+			return fmt.Sprintf("%s changed element %d of the slice it was called with (f(xs...) hands over the caller's own slice)", what, i)
+		}
+	}
+	return ""
 }
